@@ -18,7 +18,7 @@ import (
 // ---- kafka.Client on ONE kafka.Transport (connection pools, metadata cache, page buffers) ----------
 
 var clientMethods = []string{"Metadata", "Produce", "ProduceCompressed", "Fetch", "ListOffsets", "CreateTopics", "DeleteTopics",
-	"ApiVersions", "FindCoordinator", "OffsetFetch", "OffsetCommit", "ConsumerOffsets", "RoundTrip", "CloseIdleConnections"}
+	"ApiVersions", "FindCoordinator", "OffsetFetch", "OffsetCommit", "ConsumerOffsets", "RoundTrip", "CloseIdleConnections", "ClusterChange"}
 
 type clientTarget struct {
 	p   *Program
@@ -26,6 +26,8 @@ type clientTarget struct {
 	cl  *fakekafka.Cluster
 	tr  *kafka.Transport
 	c   *kafka.Client
+	b3  *fakekafka.Broker // a third broker that joins and leaves the cluster (environment step "ClusterChange")
+	ttl time.Duration
 }
 
 func init() {
@@ -38,6 +40,11 @@ func init() {
 		idle := []time.Duration{5 * time.Millisecond, 5 * time.Second}[p.Variant%2]
 		t.tr = &kafka.Transport{Dial: t.net.DialContext, DialTimeout: 2 * time.Second, MetadataTTL: ttl, IdleTimeout: idle, ClientID: "race-c"}
 		t.c = &kafka.Client{Addr: kafka.TCP("b1:9092", "b2:9092"), Transport: t.tr, Timeout: 3 * time.Second}
+		t.ttl = ttl
+		t.b3 = t.cl.AddBroker(3)
+		t.cl.Lock()
+		delete(t.cl.Brokers, 3) // listening, but not part of the cluster until ClusterChange adds it
+		t.cl.Unlock()
 		return t, nil
 	})
 }
@@ -112,6 +119,26 @@ func (t *clientTarget) call(th, k int, m string) error {
 		_, err = t.tr.RoundTrip(ctx, c.Addr, &metadataAPI.Request{TopicNames: []string{topicU}})
 	case "CloseIdleConnections":
 		t.tr.CloseIdleConnections()
+	case "ClusterChange":
+		// not an API call: the cluster layout changes (a broker joins, later leaves) while the other threads use the
+		// Transport; the pool applies it at its next metadata refresh
+		toggle := func() {
+			t.cl.Lock()
+			if _, ok := t.cl.Brokers[3]; ok {
+				delete(t.cl.Brokers, 3)
+			} else {
+				t.cl.Brokers[3] = t.b3
+			}
+			t.cl.Unlock()
+		}
+		pause := t.ttl + 15*time.Millisecond
+		if pause > 250*time.Millisecond {
+			pause = 30 * time.Millisecond
+		}
+		toggle()
+		time.Sleep(pause)
+		toggle()
+		time.Sleep(pause)
 	default:
 		return errUnknown("client", m)
 	}
